@@ -160,6 +160,7 @@ type ConsState struct {
 	Push        *actors.RtmpServerStub // pseudo-consumer: a relay-push target
 	// state of a stalled consumer at the end of the scenario proper (before the harness lets it drain)
 	ClosedAtEnd, BlockedAtEnd bool
+	PushAttachStep            int // push targets: the step at which lal attached the session to the group (0: unknown)
 	Joined                    bool
 	Left                      bool
 	Kicked                    bool
@@ -171,7 +172,11 @@ func (c *ConsState) JoinDoneStep() int {
 			return -1
 		}
 		// lal attaches the push session to the group only after it has read the target's answer to `publish`, on a
-		// goroutine of its own; from outside the earliest certain instant is the first message it pushes
+		// goroutine of its own: the instant is the grant of the group lock inside AddRtmpPushSession (assigned by the
+		// executor); without it, the earliest certain instant is the first message lal pushes
+		if c.PushAttachStep > 0 {
+			return c.PushAttachStep
+		}
 		if len(c.Push.Recv) > 0 && c.Push.Recv[0].Step > c.Push.StartedStep {
 			return c.Push.Recv[0].Step
 		}
@@ -273,6 +278,9 @@ func ExecRelay(k *sim.Kernel, pl RelayPlan) *RelayRun {
 			rr.PushCons = append(rr.PushCons, &ConsState{Plan: ConsPlan{Stream: -1, Proto: "push"}, Push: st, Joined: true})
 			return st, 0
 		})
+	}
+	if len(pl.Conf.PushAddrs) > 0 {
+		k.WatchGrants("AddRtmpPushSession")
 	}
 	rr.W = StartWorld(k, pl.Conf)
 	k.Advance(1100 * time.Millisecond) // first tick done: steady state
